@@ -4,6 +4,7 @@ from pyvc.runner import unit, run_function
 from pyvc.values import *
 from pyvc.engine import State, LoopSpec
 from . import tty
+from .renderable import *
 from .common import *
 
 UTILS = "utils.py"
